@@ -20,8 +20,15 @@ tie    : (a) harness/c04.cpp calls BOTH overloads of the real compute_shortest_d
          extracted -1/2 J S J (check_mds; N a power of two, integer lattice points, L1 metric) and the extracted
          model of the statements; the returned embedding is compared (tolerance stream, 1e-8) with the top-d
          eigenpairs of that matrix computed by Eigen's SelfAdjointEigenSolver whose contract is validated.
-search : when a proof obligation or the correspondence breaks: five times the random budget straight against
-         the extracted spec, small graphs first; failing graphs are shrunk (vertices, neighbours, landmarks).
+         (c) model-guided generation: candidate graphs are screened through the extracted concrete-heap model
+         (dk_class: which heap situation every decrease_key call meets) and the ones with the rare situations
+         (a non-minimal ROOT lowered below the minimum, a child cut below the minimum, ...) are added to every run;
+         (d) a labelled TOLERANCE stream: generic 53-bit double weights, observed vs exact shortest paths, 1e-12.
+search : when a proof obligation or the correspondence breaks (or a call trace differs): all graphs with
+         (N,K) in {(2,1),(2,2),(3,1)} and edge weights {0,1,2}; 12000 more model-screened candidates; five times the
+         random budget straight against the extracted spec, small graphs first; failing graphs are shrunk
+         (vertices, neighbours, landmarks).  Crash / hang / std::terminate of a mutated library = violation with the
+         input announced last.
 """
 import hashlib
 import json
@@ -41,12 +48,16 @@ TRUSTED = [
     "distances modelled as integers (Dijkstra only adds and compares; the harness feeds dyadic doubles whose sums "
     "are exact in binary64); infinity (DBL_MAX in the code) modelled as None; IEEE rounding on non-dyadic inputs "
     "is not modelled",
-    "the priority queue / Fibonacci heap are modelled by their contract (extract a minimal-key entry; insert, "
-    "decrease_key as in property C16's abstract map); theorems hold for EVERY tie-breaking rule meeting it",
+    "std::priority_queue is modelled by its contract (top is SOME minimal-key entry; theorems hold for every such "
+    "choice); the Fibonacci heap both by that contract and concretely (Dijkstra_FibC_Model.v runs on property C16's "
+    "pointer-order model FibHeap_Model.v, whose own tie to fibonacci_heap.hpp is C16's structural correspondence and, "
+    "here, the exact comparison of the distance-callback call sequence)",
     "OpenMP: rows are modelled as independent functions of the source (one thread writes one row); the harness "
     "observes 1, 3 and 16 threads; libgomp itself is not modelled (property C15)",
-    "Eigen's SelfAdjointEigenSolver is an oracle (residual, orthonormality validated per call); the embedding "
-    "comparison is a tolerance test, not a theorem; matrix algebra theorems are over an abstract field, closed at Qc",
+    "Eigen's SelfAdjointEigenSolver and sqrt are oracles: isomap_embedding_top_d_partial / isomap_subspace_optimal "
+    "assume B V = V diag(L), V^T V = I, V V^T = I, L ascending, s^2 = max(lambda,0); the harness validates these "
+    "(1e-8) on every decomposition it observes; the embedding comparison itself is a tolerance test; matrix algebra "
+    "theorems are over an abstract field / Qc, not binary64",
     "harness macros wrapping `compute_shortest_distances_matrix(` and `eigendecomposition_via(` inside "
     "methods/isomap.hpp and methods/landmark_isomap.hpp record and forward (harness/c04.cpp)",
     "extraction (ExtrOcamlBasic only) + OCaml 4.13.1 + coq/extract/c04_driver.ml (parsing/printing)",
